@@ -17,10 +17,34 @@ def register_signal_handlers():
 
 def _terminate_handler(sig, frame):
     global _abort_pending  # pylint: disable=global-statement
-    if _defer_depth > 0:
+    if _defer_depth > 0 or _in_destructor(frame):
         _abort_pending = True
         return
     raise ConductorAbort()
+
+
+def _in_destructor(frame) -> bool:
+    # An exception raised while a `__del__` method is running (ours or the
+    # standard library's, e.g. `Popen.__del__`) does not propagate: the
+    # interpreter prints "Exception ignored in ..." and carries on, so the
+    # abort would be lost. Such aborts are remembered instead; see
+    # `raise_pending_abort()`.
+    while frame is not None:
+        if frame.f_code.co_name == "__del__":
+            return True
+        frame = frame.f_back
+    return False
+
+
+def raise_pending_abort():
+    """
+    Raises a `ConductorAbort` that could not be raised at the time its signal
+    arrived (and that no `defer_abort()` block is going to raise).
+    """
+    global _abort_pending  # pylint: disable=global-statement
+    if _defer_depth == 0 and _abort_pending:
+        _abort_pending = False
+        raise ConductorAbort()
 
 
 @contextlib.contextmanager
